@@ -52,6 +52,9 @@ type counters struct {
 	wrong    int                      // handed to the wrong instance or with a changed body
 	tokOf    map[int]onet.TokenID     // expected token per id
 	insts    map[onet.RoundID]*tproto // instances on R by round
+	ctor     map[onet.RoundID]int     // constructor calls on R per round
+	ctorGate chan struct{}            // when non-nil, constructors on R wait here
+	ctorIn   chan struct{}            // signalled when a constructor arrives at the gate
 }
 
 var cnt *counters
@@ -68,7 +71,19 @@ func newTProto(n *onet.TreeNodeInstance) (onet.ProtocolInstance, error) {
 	if p.onR && cnt != nil {
 		cnt.Lock()
 		cnt.insts[n.Token().RoundID] = p
+		cnt.ctor[n.Token().RoundID]++
+		if cnt.ctor[n.Token().RoundID] > 1 {
+			cnt.wrong++ // a second instance for one token: messages of the run are split between instances
+		}
+		gate, in := cnt.ctorGate, cnt.ctorIn
 		cnt.Unlock()
+		if gate != nil {
+			select {
+			case in <- struct{}{}:
+			default:
+			}
+			<-gate
+		}
 	}
 	if err := p.RegisterHandler(p.handlePing); err != nil {
 		return nil, err
@@ -567,8 +582,62 @@ func (w *world) finish(k tokKey) bool {
 	return true
 }
 
+// race2 lets two threads that both found the tree hand their messages over concurrently: the
+// first is held inside the protocol constructor while the second runs. The transmit lock
+// must make the second wait; the model's outcome (both delivered, one instance) is
+// independent of the order, so the two model steps are emitted in position order.
+func (w *world) race2(a, b int) {
+	if a > b {
+		a, b = b, a
+	}
+	if b >= len(w.threads) || a == b {
+		w.failed = "race2: no such threads"
+		return
+	}
+	ta, tb := w.threads[a], w.threads[b]
+	if ta.kind != kMsg || tb.kind != kMsg || ta.pc != "hit" || tb.pc != "hit" {
+		w.failed = "race2: threads not at hit"
+		return
+	}
+	cnt.Lock()
+	cnt.ctorGate = make(chan struct{})
+	cnt.ctorIn = make(chan struct{}, 4)
+	gate, in := cnt.ctorGate, cnt.ctorIn
+	cnt.Unlock()
+	ta.gate.Release()
+	select {
+	case <-in: // first thread is inside the constructor
+	case <-ta.done: // the instance existed already
+	case <-time.After(wait):
+	}
+	tb.gate.Release()
+	// give the second thread the chance to (wrongly) run ahead
+	select {
+	case <-in:
+	case <-tb.done:
+	case <-time.After(50 * time.Millisecond):
+	}
+	cnt.Lock()
+	cnt.ctorGate = nil
+	cnt.Unlock()
+	close(gate)
+	for _, t := range []*th{ta, tb} {
+		select {
+		case <-t.done:
+		case <-time.After(wait):
+			w.failed = "race2: thread did not return"
+			return
+		}
+	}
+	w.remove(b)
+	w.remove(a)
+	w.emit(fmt.Sprintf("Step %d", a), fmt.Sprintf("Step %d", b-1))
+}
+
 func (w *world) exec(o op) {
 	switch o.Op {
+	case "race2":
+		w.race2(o.Pos, o.Run)
 	case "msg":
 		w.startMsg(tokKey{o.Tree, o.Run})
 	case "step":
@@ -583,7 +652,7 @@ func (w *world) exec(o op) {
 }
 
 func runTrace(in input) lib.Case {
-	cnt = &counters{tokOf: map[int]onet.TokenID{}, insts: map[onet.RoundID]*tproto{}}
+	cnt = &counters{tokOf: map[int]onet.TokenID{}, insts: map[onet.RoundID]*tproto{}, ctor: map[onet.RoundID]int{}}
 	lt := onet.NewLocalTest(suite)
 	lt.Check = onet.CheckNone
 	servers := lt.GenServers(3)
@@ -892,6 +961,8 @@ func templates() []input {
 		{Kind: "trace", Name: "two-trees", Ops: []op{m(0, 1), m(1, 1), s(0), s(1), s(0), s(1), s(0), s(1), s(0), s(0), resp(1), resp(0)}},
 		{Kind: "trace", Name: "local-tree-flush", Ops: []op{m(0, 1), s(0), s(0), ltree(0), s(1), s(0)}},
 		{Kind: "trace", Name: "double-request", Ops: []op{m(0, 1), m(0, 2), s(0), s(1), s(0), s(1), s(0), s(1), s(0), s(0), resp(0), resp(0)}},
+		// two first messages of one run handed over concurrently (second arrives while the first is in the constructor)
+		{Kind: "trace", Name: "concurrent-first", Ops: []op{ltree(0), s(0), s(0), m(0, 1), m(0, 1), {Op: "race2", Pos: 0, Run: 1}, m(0, 1), s(0)}},
 		{Kind: "trace", Name: "park-during-flush", Ops: []op{m(0, 1), s(0), s(0), s(0), s(0), m(0, 2), resp(0), s(0), s(1), s(0)}},
 	}
 }
